@@ -14,7 +14,30 @@ def parseEv (j : Json) : Option Ev := do
 def showSt (s : St) : String :=
   s!"{ofBool s.coil} {s.target} {ofBool s.error} {s.lastGood}"
 
+/-- group events: ["r",i] ["u",i] ["c"] ["t",i,v] ["s",i,o,c] ["a",d] -/
+def parseGEv (j : Json) : Option GEv := do
+  match ← jArr j with
+  | [k] => if (← jStr k) == "c" then some .cycle else none
+  | [k, v] => match ← jStr k with
+    | "r" => pure (.reset (← jNat v)) | "u" => pure (.update (← jNat v)) | "a" => pure (.advance (← jNat v)) | _ => none
+  | [k, i, v] => if (← jStr k) == "t" then pure (.setTarget (← jNat i) (← jNat v)) else none
+  | [k, i, o, c] => if (← jStr k) == "s" then pure (.switches (← jNat i) (← jNat o) (← jNat c)) else none
+  | _ => none
+
+def memberOf (t0 : Int) (j : Json) : Option Member := do
+  pure { cfg := { safeState := ← fBool j "safe", movingTime := ← fInt j "mt" },
+         st := { now := t0, openSw := ← fNat j "open0", closedSw := ← fNat j "closed0", coil := ← fBool j "coil0",
+                 target := 0, error := false, lastGood := 0 } }
+
+/-- several valves in one slow sync group: after every event the state of every valve -/
+def stepGroup (j : Json) : Option String := do
+  let t0 ← fInt j "t0"
+  let g ← (← fArr j "group").mapM (memberOf t0)
+  let evs ← (← fArr j "events").mapM parseGEv
+  pure (" | ".intercalate ((gtrace g evs).map fun ms => " / ".intercalate (ms.map fun u => showSt u.st)))
+
 def step' (j : Json) : Option String := do
+  if (field j "group").isSome then return ← stepGroup j
   let cfg : Cfg := { safeState := ← fBool j "safe", movingTime := ← fInt j "mt" }
   let s0 : St := { now := ← fInt j "t0", openSw := ← fNat j "open", closedSw := ← fNat j "closed",
                    coil := ← fBool j "coil", target := 0, error := false, lastGood := 0 }
